@@ -709,12 +709,14 @@ theorem retry_bal (st : St ρ) ts outs bb (ho : Pieces outs) :
     apply okP_seq _ _ (ih.onePass st _ _ _ _ ho)
     intro r hr
     split
+    · exact okP_error _ _
     · split
-      · exact okP_error _ _
       · split
         · exact okP_error _ _
-        · exact ih.retry _ _ _ _ hr
-    · exact ih.retry _ _ _ _ hr
+        · split
+          · exact okP_error _ _
+          · exact ih.retry _ _ _ _ hr
+      · exact ih.retry _ _ _ _ hr
 
 theorem processNodes_bal (st : St ρ) ks : BalRes (Ctl.processNodes ev (fuel + 1) st ks).2 := by
   unfold Ctl.processNodes
